@@ -386,4 +386,78 @@ theorem verifyDigests_not_panic (md5 sha1 sha256 : Bytes → Bytes) (p : Package
   simp only at this
   rw [this]; exact outcome_not_panic _ p _
 
+/-! ### `echo_signature` in place (AUDIT2 a10) -/
+
+/-- what `echo_signature` prints for the signature of a consult -/
+def echoOf (c : Consult) : Nat × Bytes := (c.sig.length, c.sig.take Gen.echoPrefixLen)
+
+/-- the slice bound `len.min(N)` is never out of range: the echo is a value — the length and the first `N` bytes -/
+theorem echoSignature_eq (sig : Bytes) : echoSignature sig = .ok (sig.length, sig.take Gen.echoPrefixLen) := by
+  unfold echoSignature sliceTo
+  rw [if_pos (Nat.min_le_left _ _)]
+  simp only [Out.bind_ok, Out.pure_eq]
+  have : sig.take (min sig.length Gen.echoPrefixLen) = sig.take Gen.echoPrefixLen :=
+    List.take_eq_take_iff.mpr (by omega)
+  rw [this]
+
+theorem openpgpLoopE_eq (b64 : Bytes → Option Bytes) (v : Verifier) (hdr : Bytes) (pre : List Consult)
+    (ech : List (Nat × Bytes)) (sigs : List Bytes) (he : ech = pre.map echoOf) :
+    openpgpLoopE b64 v hdr pre ech sigs =
+      ((openpgpLoop b64 v hdr pre sigs).1, (openpgpLoop b64 v hdr pre sigs).2,
+        (openpgpLoop b64 v hdr pre sigs).2.map echoOf) := by
+  induction sigs generalizing pre ech with
+  | nil => simp [openpgpLoopE, openpgpLoop, he]
+  | cons s rest ih =>
+    simp only [openpgpLoopE, openpgpLoop]
+    cases hb : b64 s with
+    | none => simp [he]
+    | some x =>
+      simp only [echoSignature_eq]
+      cases hv : v pre hdr x
+      · simp [echoOf, he]
+      · simp only [if_true]
+        exact ih _ _ (by simp [he, echoOf])
+
+theorem runConsultsE_eq (v : Verifier) (pre : List Consult) (ech : List (Nat × Bytes)) (l : List (Bytes × Bytes × Bool))
+    (he : ech = pre.map echoOf) :
+    runConsultsE v pre ech l = ((runConsults v pre l).1, (runConsults v pre l).2, (runConsults v pre l).2.map echoOf) := by
+  induction l generalizing pre ech with
+  | nil => simp [runConsultsE, runConsults, he]
+  | cons x rest ih =>
+    obtain ⟨d, s, g⟩ := x
+    simp only [runConsultsE, runConsults, echoSignature_eq]
+    cases hv : v pre d s
+    · simp [echoOf, he]
+    · simp only [if_true]
+      exact ih _ _ (by simp [he, echoOf])
+
+/-- **`verify_signature` with the `echo_signature` calls in = without them**: same result, same consult log; what the
+Debug logger is handed is, per consult and in order, the signature's length and its first `echoPrefixLen` bytes -/
+theorem verifySignatureSE_eq (md5 sha1 sha256 : Bytes → Bytes) (b64 : Bytes → Option Bytes) (v : Verifier) (p : Package) :
+    verifySignatureSE md5 sha1 sha256 b64 v p =
+      ((verifySignatureS md5 sha1 sha256 b64 v p).1, (verifySignatureS md5 sha1 sha256 b64 v p).2,
+        (verifySignatureS md5 sha1 sha256 b64 v p).2.map echoOf) := by
+  unfold verifySignatureSE verifySignatureS
+  cases verifyDigests md5 sha1 sha256 p with
+  | err c => rfl
+  | panic s => rfl
+  | ok u =>
+    simp only
+    cases getStringArray p.md.signature SigTag.RPMSIGTAG_OPENPGP with
+    | ok sigs =>
+      simp only
+      split
+      · rfl
+      · exact openpgpLoopE_eq b64 v _ [] [] sigs rfl
+    | err c =>
+      simp only [legacy]
+      split
+      · rfl
+      · exact runConsultsE_eq v [] [] _ rfl
+    | panic s =>
+      simp only [legacy]
+      split
+      · rfl
+      · exact runConsultsE_eq v [] [] _ rfl
+
 end RpmVerif.Verify
